@@ -193,8 +193,13 @@ def r5(ctx: Ctx) -> None:
             ok = reads_overlap and half and cond.t == (cost - to_poly(best_c[0])).t
             # final call uses the tracked constant on the caller's die
             rets = [st for st in c if st[0] == "ret"]
-            fin = len(rets) == 1 and rets[0][1][0] == "c" and rets[0][1][1] == ("g", "fruchterman_reingold_layout") and \
+            trial = sorted(set(atoms_of(body, lambda x: x[0] == "c" and x[1] == ("g", "fruchterman_reingold_layout"))), key=skey)
+            fin = len(rets) == 1 and rets[0][1][0] == "c" and rets[0][1][1] == ("g", "fruchterman_reingold_layout") and len(rets[0][1][2]) >= 2 and \
                 rets[0][1][2][0] == ("p", 0) and rets[0][1][2][1] == best_k[0]
+            if fin and len(trial) == 1:
+                # same iteration budget as the trials that were scored
+                ta, fa_ = trial[0][2], rets[0][1][2]
+                fin = len(ta) == 5 and len(fa_) == 5 and ta[4] == fa_[4] and ta[1] == kappa
             ctx.site(f.where, "final layout runs on the caller's die with the best constant", ok=fin)
             if not fin:
                 ctx.report(f.where, "final-kappa", "the final layout is not computed with the constant selected by the cost test", lineno=f.node.lineno)
